@@ -94,6 +94,10 @@ let run_recs id =
     match M.get st tag r with Some b -> hex_of_bytes b | None -> "missing" in
   let seen = List.concat (List.map (fun ((t, _), b) ->
     if t = M.dFTAG_NDG then M.sdlnk_sdg st (M.di_decode (M.length b) b) else []) st) in
+  (* the values a reader hands over: the data element converted with the type the reader decoded (MixModel.convert) *)
+  let values_of ty r =
+    if zi r = 0 then "-" else if special M.dFTAG_SD r then "special" else
+    match M.get st M.dFTAG_SD r with Some b -> hex_of_bytes (M.convert ty b) | None -> "missing" in
   let k = ref 0 in
   List.iter (fun ((t, r), b) ->
     if t = M.dFTAG_NDG || (t = M.dFTAG_SDG && not (List.mem r seen)) then begin
@@ -101,7 +105,7 @@ let run_recs id =
       let kind = if t = M.dFTAG_NDG then "ndg" else "sdg" in
       (match M.ndg_view st members with
        | Some (((rank, dims), ty), dref) ->
-         print_string (Printf.sprintf "%s ndgm %d %s %d %d %s %d %s\n" id !k kind (zi r) (zi rank) (ints dims) (zi ty) (data_of M.dFTAG_SD dref))
+         print_string (Printf.sprintf "%s ndgm %d %s %d %d %s %d %s\n" id !k kind (zi r) (zi rank) (ints dims) (zi ty) (values_of ty dref))
        | None -> print_string (Printf.sprintf "%s ndgm %d %s %d none\n" id !k kind (zi r)));
       (* the scales record of the group, through the SD reader's offset walk and the DFSD reader's sequential read *)
       (match M.ndg_view st members, List.filter (fun (t', _) -> t' = M.dFTAG_SDS) members with
@@ -117,7 +121,7 @@ let run_recs id =
        | _, _ -> ());
       (match M.dfsd_view st members with
        | Some (((rank, dims), ty), dref) ->
-         print_string (Printf.sprintf "%s dfsdm %d %s %d %d %s %d %s\n" id !k kind (zi r) (zi rank) (ints dims) (zi ty) (data_of M.dFTAG_SD dref))
+         print_string (Printf.sprintf "%s dfsdm %d %s %d %d %s %d %s\n" id !k kind (zi r) (zi rank) (ints dims) (zi ty) (values_of ty dref))
        | None -> print_string (Printf.sprintf "%s dfsdm %d %s %d none\n" id !k kind (zi r)));
       incr k
     end) st;
